@@ -341,7 +341,9 @@ CELLS = [1.0, 2.0, 2.0, 5.0, -3.0, 0.0, 10.0, 3.5, 'a', 'A', 'b', 'B', 'ab', 'ab
          # multi-line texts: wildcards cover line feeds too
          'Total\n2024', 'tota\n', 'a\nb',
          # error values among the cells: no order with numbers or texts
-         xl.err('#N/A'), xl.err('#DIV/0!'), xl.err('#NAME?')]
+         xl.err('#N/A'), xl.err('#DIV/0!'), xl.err('#NAME?'),
+         # texts only python reads as numbers: text for a criterion
+         '1_0', 'inf', 'nan', 'Infinity', 10.0]
 OPS = ['=', '<>', '<', '>', '<=', '>=', '']
 
 
